@@ -164,6 +164,24 @@ def dec_6809(kind, b, a):
     return None
 
 
+def dec_8051(kind, b, a):
+    # generic JMP/CALL choose among SJMP (80 rel) / AJMP, ACALL (page of the FOLLOWING instruction, 11 bits) / LJMP, LCALL (16 bits)
+    if kind in ('jump', 'call'):
+        if len(b) == 3 and b[0] == (0x02 if kind == 'jump' else 0x12):
+            return b[1] << 8 | b[2], 'abs16'
+        if len(b) == 2 and (b[0] & 0x1f) == (0x01 if kind == 'jump' else 0x11):
+            return ((a + 2) & 0xF800) | ((b[0] >> 5) << 8) | b[1], 'abs11'
+        if kind == 'jump' and len(b) == 2 and b[0] == 0x80:
+            return (a + 2 + sx(b[1], 8)) & 0xffff, 'rel8'
+    elif kind == 'near':
+        if len(b) == 2 and b[0] == 0x80:
+            return (a + 2 + sx(b[1], 8)) & 0xffff, 'rel8'
+    elif kind == 'word':
+        if len(b) == 2:
+            return b[1] << 8 | b[0], 'data'         # (DW is little-endian unless BIGENDIAN is switched on)
+    return None
+
+
 def dec_6811(kind, b, a):
     if kind == 'load':
         if len(b) == 2 and b[0] == 0x96:
@@ -209,6 +227,7 @@ TARGETS = {
     '6809': (dec_6809, {'load': 'lda\t%s', 'jump': 'jmp\t%s', 'near': 'bra\t%s', 'long': 'lbra\t%s', 'word': 'fdb\t%s'}, 'fcb', 'rmb', [0x00, 0x80, 0xF0, 0x100, 0x1000], 3, False),
     '6811': (dec_6811, {'load': 'ldaa\t%s', 'jump': 'jmp\t%s', 'near': 'bra\t%s', 'near-bitd': 'brset\t$20,#$10,%s', 'near-bitx': 'brclr\t3,x,#$41,%s',
                'near-bity': 'brset\t4,y,#$01,%s', 'word': 'fdb\t%s'}, 'fcb', 'rmb', [0x00, 0x80, 0xF0, 0x100, 0x1000], 3, False),
+    '8051': (dec_8051, {'jump': 'jmp\t%s', 'call': 'call\t%s', 'near': 'sjmp\t%s', 'word': 'dw\t%s'}, 'db', 'ds', [0x00, 0x700, 0x7F0, 0x7FA, 0xF7F0, 0x1000], 3, False),
     '8086': (dec_8086, {'jump': 'jmp\t%s', 'word': 'dw\t%s'}, 'db', 'db', [0x100, 0x1000], 3, False),
 }
 
@@ -324,8 +343,27 @@ EDGE_DIST = [100, 110, 116, 118, 119, 120, 121, 122, 123, 124, 125, 126, 127, 12
 def gen_edge(rng):
     """fixed-size short branches whose distance lies around the limit of their displacement field: such a branch is either
     rejected (jump distance too big) or, if accepted, encodes a displacement that reaches the label"""
-    cpu = rng.choice(['6502', '6809', '6811'])
+    cpu = rng.choice(['6502', '6809', '6811', '8051'])
     dec, kinds, bop, rop, bases, maxsz, padding, = TARGETS[cpu]
+    if cpu == '8051':
+        # generic JMP/CALL around the end of a 2 KiB page: the short form is only right if target and the FOLLOWING instruction share the page
+        page = rng.choice([0x0000, 0x0800, 0x7800, 0xF000])
+        lines = ['\tcpu\t8051']
+        stmts = []
+
+        def add8(text, typ=None, info=None):
+            lines.append(text)
+            if typ:
+                stmts.append((len(lines), typ, info))
+        add8('\torg\t%d' % (page + rng.choice([0x10, 0x100, 0x400])))
+        add8('lb0:', 'label', 'lb0')
+        add8('\tdb\t%d' % 0xC1, 'marker', 'lb0')
+        add8('\torg\t%d' % (page + 0x7F8 + rng.randrange(0, 8)))
+        for _ in range(rng.randrange(1, 4)):
+            k = rng.choice(['jump', 'call'])
+            add8('\t' + kinds[k] % 'lb0', 'ref', (k, 'lb0'))
+        add8('\tdb\t0')
+        return cpu, '\n'.join(lines) + '\n', stmts
     near_kinds = sorted(k for k in kinds if k.startswith('near'))
     lines = ['\tcpu\t%s' % cpu, '\torg\t%d' % rng.choice([0x1000, 0x4000, 0x80])]
     stmts = []
